@@ -1,5 +1,5 @@
 """show native contract violations: nat.py <module> <index> [n]"""
-import sys; sys.path[:0]=['/verif','/repo']
+import sys; import os; sys.path[:0]=['/verif', os.environ.get('VERIF_REPO','/repo')]
 import random, importlib, warnings
 warnings.simplefilter("ignore")
 from pyvc.contract import native_check
